@@ -41,7 +41,10 @@ func (p Path) Matches(base string) bool {
 	// sanitize the paths for comparison, very important
 	// (slightly lossy if the base path requires multiple
 	// consecutive forward slashes, since those will be merged)
-	pHasTrailingSlash := strings.HasSuffix(string(p), "/")
+	// (a path that ends in a dot segment names a directory too:
+	// /secret/. and /secret/a/.. are /secret/)
+	pHasTrailingSlash := strings.HasSuffix(string(p), "/") ||
+		strings.HasSuffix(string(p), "/.") || strings.HasSuffix(string(p), "/..")
 	baseHasTrailingSlash := strings.HasSuffix(base, "/")
 	p = Path(path.Clean(string(p)))
 	base = path.Clean(base)
